@@ -72,6 +72,35 @@ def replication_algebra(w):
     return h
 
 
+REPL_KIND = {'Unlimited': 0, 'Limited': 1, 'Host': 2, 'One': 3}
+
+
+def repl_args(ex, r):
+    return [REPL_KIND[r.variant], hlib.concrete_int(ex, r.fields[0]) if r.fields else 0]
+
+
+def native_block_info(ex, cores, repl, host_id):
+    """(replicas per host, global ids) as derived by the real Scheduler::remote_block_info"""
+    runner, prof = ex.env['native']
+    ex.env['native_used'] = True
+    args = [len(cores)] + [hlib.concrete_int(ex, c) for c in cores] + repl_args(ex, repl) + [host_id]
+    txt = runner('block_info', args)[prof]
+    ex.env['native_out'] = txt
+    if txt == 'PANIC' or not txt.startswith('R'):
+        from mirsym.executor import RustPanic
+        raise RustPanic('the real remote_block_info failed: ' + txt)
+    rpart, gpart = txt[1:].split('|')
+    reps = {}
+    for tok in rpart.split():
+        b, h, r = map(int, tok.split('.'))
+        reps.setdefault(h, []).append((b, h, r))
+    gids = {}
+    for tok in gpart.split()[1:]:
+        c, g = tok.split('=')
+        gids[tuple(map(int, c.split('.')))] = int(g)
+    return reps, gids
+
+
 class BlockStub(PyObj):
     name = 'Block'
 
@@ -108,14 +137,19 @@ def block_info_harness(w, nhosts, maxcores):
             cores.append(c)
         repl = sym_replication(ex, w, 'replication', maxq=nhosts * maxcores + 1)
         infos = []
-        for host_id in range(nhosts):
-            sch, remote = mk_scheduler(ex, w, cores, host_id)
-            info = ex.call_function(rbi, [Ref([sch], 0), Ref([mk_block(w, 7, repl)], 0), Ref([remote], 0)])
-            infos.append(info)
-        sx = lambda: {'cores': [repr(c) for c in cores], 'replication': repr(repl),
-                      'replicas': repr(infos[0].get('replicas'))[:400]}
-        # the same on every host
         shapes = []
+        if ex.env.get('native'):
+            for host_id in range(nhosts):
+                reps_, gids_ = native_block_info(ex, cores, repl, host_id)
+                shapes.append((sorted(reps_.items()), sorted(gids_.items())))
+        else:
+            for host_id in range(nhosts):
+                sch, remote = mk_scheduler(ex, w, cores, host_id)
+                info = ex.call_function(rbi, [Ref([sch], 0), Ref([mk_block(w, 7, repl)], 0), Ref([remote], 0)])
+                infos.append(info)
+        sx = lambda: {'cores': [repr(c) for c in cores], 'replication': repr(repl),
+                      'replicas': repr(shapes[0][0])[:400] if shapes else ''}
+        # the same on every host
         for info in infos:
             reps = {}
             for k, v in info.get('replicas').entries:
@@ -190,6 +224,25 @@ def graph_harness(w, nhosts, maxcores, mode):
             cores.append(c)
         r1 = sym_replication(ex, w, 'producer', maxq=nhosts * maxcores)
         r2 = sym_replication(ex, w, 'consumer', maxq=nhosts * maxcores)
+        if ex.env.get('native'):
+            runner, prof = ex.env['native']
+            args = [nhosts] + [hlib.concrete_int(ex, c) for c in cores] + repl_args(ex, r1) + repl_args(ex, r2) + \
+                [{'forward': 0, 'fragile': 1, 'shuffle': 2}[mode]]
+            ex.env['native_used'] = True
+            txt = runner('graph', args)[prof]
+            ex.env['native_out'] = txt
+            if txt == 'PANIC' or txt.startswith(('BADARGS', 'UNKNOWN')):
+                from mirsym.executor import RustPanic
+                raise RustPanic('the real build_execution_graph failed: ' + txt)
+            links = []
+            for tok in txt.split():
+                f, t = tok.split('>')
+                links.append((tuple(map(int, f.split('.'))), tuple(map(int, t.split('.')))))
+            p_reps, _ = native_block_info(ex, cores, r1, 0)
+            c_reps, _ = native_block_info(ex, cores, r2, 0)
+            prod = [(1,) + c[1:] for v in p_reps.values() for c in v]
+            cons = [(2,) + c[1:] for v in c_reps.values() for c in v]
+            return _judge_graph(ex, mode, prod, cons, links, cores, r1, r2)
         sch, remote = mk_scheduler(ex, w, cores, 0)
         topo = TopoLog()
         sch.set('network', topo)
@@ -203,28 +256,32 @@ def graph_harness(w, nhosts, maxcores, mode):
         ex.call_function(beg, [Ref([sch], 0)])
         prod = [tuple(ex.concretize(f) for f in c.fields) for _, v in i1.get('replicas').entries for c in v.items]
         cons = [tuple(ex.concretize(f) for f in c.fields) for _, v in i2.get('replicas').entries for c in v.items]
-        sx = lambda: {'mode': mode, 'cores': [repr(c) for c in cores], 'producer': repr(r1), 'consumer': repr(r2),
-                      'producers': prod, 'consumers': cons, 'links': [(f, t) for f, t, _ in topo.links]}
         links = [(f, t) for f, t, _ in topo.links]
-        if len(set(links)) != len(links):
-            raise Violation('a link is created twice', hlib._wit(ex), sx())
-        if mode == 'shuffle':
-            if sorted(links) != sorted((p, c) for p in prod for c in cons):
-                raise Violation('all-to-all connection is not complete', hlib._wit(ex), sx())
-        else:
-            for p in prod:
-                mine = [t for f, t in links if f == p]
-                if len(mine) != 1:
-                    raise Violation('forward connection: producer replica has %d consumers (exactly one expected) '
-                                    '(forward_count)' % len(mine), hlib._wit(ex), sx())
-                same = [c for c in cons if c[1:] == p[1:]]
-                if same and mine[0] != same[0]:
-                    raise Violation('forward connection does not use the same-index replica although it exists',
-                                    hlib._wit(ex), sx())
-            if len(prod) > 1:
-                hlib.cover(ex, 'several_producers')
-        return sx()
+        return _judge_graph(ex, mode, prod, cons, links, cores, r1, r2)
     return h
+
+
+def _judge_graph(ex, mode, prod, cons, links, cores, r1, r2):
+    sx = lambda: {'mode': mode, 'cores': [repr(c) for c in cores], 'producer': repr(r1), 'consumer': repr(r2),
+                  'producers': prod, 'consumers': cons, 'links': links}
+    if len(set(links)) != len(links):
+        raise Violation('a link is created twice', hlib._wit(ex), sx())
+    if mode == 'shuffle':
+        if sorted(links) != sorted((p, c) for p in prod for c in cons):
+            raise Violation('all-to-all connection is not complete', hlib._wit(ex), sx())
+    else:
+        for p in prod:
+            mine = [t for f, t in links if f == p]
+            if len(mine) != 1:
+                raise Violation('forward connection: producer replica has %d consumers (exactly one expected) '
+                                '(forward_count)' % len(mine), hlib._wit(ex), sx())
+            same = [c for c in cons if c[1:] == p[1:]]
+            if same and mine[0] != same[0]:
+                raise Violation('forward connection does not use the same-index replica although it exists',
+                                hlib._wit(ex), sx())
+        if len(prod) > 1:
+            hlib.cover(ex, 'several_producers')
+    return sx()
 
 
 def TASKS(tier):
@@ -293,10 +350,32 @@ def topology_build_harness(w, nhosts, nlinks):
         vals = {f: Opaque(f) for f in fields}
         vals.update(config=sch.get('config'), next=nxt, prev=MapModel('HashMap'), senders_metadata=MapModel('HashMap'),
                     block_replicas=MapModel('HashMap'), demultiplexer_addresses=MapModel('HashMap'))
-        topo = Agg('struct', 'NetworkTopology', [vals[f] for f in fields], list(fields))
-        holder = [topo]
-        ex.call_function(build, [Ref(holder, 0)])
-        addrs = holder[0].get('demultiplexer_addresses').entries
+        if ex.env.get('native'):
+            runner, prof = ex.env['native']
+            args = [nhosts, nlinks]
+            for f, t in links:
+                args += list(f) + list(t)
+            args += [hlib.concrete_int(ex, b) for b in base]
+            ex.env['native_used'] = True
+            txt = runner('topology_build', args)[prof]
+            ex.env['native_out'] = txt
+            if txt == 'PANIC' or txt.startswith(('BADARGS', 'UNKNOWN')):
+                from mirsym.executor import RustPanic
+                raise RustPanic('the real NetworkTopology::build failed: ' + txt)
+            addrs = []
+            for tok in txt.split():
+                left, port = tok.split('=')
+                tbh, fb = left.split('<')
+                tb, th = tbh.split('.')
+                k = hlib.mk_struct(w, 'DemuxCoord', coord=hlib.mk_struct(w, 'BlockCoord', block_id=Int('u64', int(tb)),
+                                                                         host_id=Int('u64', int(th))),
+                                   prev_block_id=Int('u64', int(fb)))
+                addrs.append([k, Agg('tuple', None, ['h', Int('u16', int(port))])])
+        else:
+            topo = Agg('struct', 'NetworkTopology', [vals[f] for f in fields], list(fields))
+            holder = [topo]
+            ex.call_function(build, [Ref(holder, 0)])
+            addrs = holder[0].get('demultiplexer_addresses').entries
         # canonical expectation: endpoints (to block, to host, from block) sorted, ports handed out per host in order
         eps = sorted(set((t[0], t[1], f[0]) for f, t in links))
         sx = lambda: {'links': links, 'addresses': [(repr(k), repr(v)) for k, v in addrs]}
